@@ -2,7 +2,8 @@
 From Coq Require Import String Ascii List NArith ZArith Bool Lia.
 From Sylt Require Import Syntax.Resolved.
 From Sylt Require Sem.Values Sem.Runtime Sem.SyltSem.
-From Sylt Require Import Back.IR Pres.Frag.
+From Sylt Require Import Back.IR.
+From Sylt Require Import Pres.Frag.
 Import ListNotations.
 Local Open Scope N_scope.
 
@@ -34,11 +35,21 @@ Proof.
   unfold SyltSem.bind. destruct (SyltSem.exec n e (SDefinition name var kind t value sp) st) as [[e1|o|c] st1]; [apply IH | reflexivity | reflexivity].
 Qed.
 
-(* the state after the definition of start *)
-Definition start_env (sv : N) (eg : SyltSem.env) (stg : SyltSem.state) : SyltSem.env := (sv, length (SyltSem.cells stg)) :: eg.
-Definition start_state (sv : N) (body : list stmt) (eg : SyltSem.env) (stg : SyltSem.state) : SyltSem.state :=
+(* the state after the definition of a function (start: no parameters) *)
+Definition def_env (fv : N) (eg : SyltSem.env) (stg : SyltSem.state) : SyltSem.env := (fv, length (SyltSem.cells stg)) :: eg.
+Definition def_state (fv : N) (ps : list N) (body : list stmt) (eg : SyltSem.env) (stg : SyltSem.state) : SyltSem.state :=
   SyltSem.mkState (SyltSem.cells stg ++ [SyltSem.SClos (length (SyltSem.clos stg))]) (SyltSem.blobs stg)
-                  (SyltSem.clos stg ++ [SyltSem.mkClos [] body (start_env sv eg stg)]) (SyltSem.trace stg).
+                  (SyltSem.clos stg ++ [SyltSem.mkClos ps body (def_env fv eg stg)]) (SyltSem.trace stg).
+Definition start_env := def_env.
+Definition start_state (sv : N) (body : list stmt) := def_state sv [] body.
+
+Lemma exec_def_fun f nm fv kd t fname params ret body pure fsp dsp e st :
+  SyltSem.exec (S (S f)) e (SDefinition nm fv kd t (EFunction fname params ret body pure fsp) dsp) st =
+  (SyltSem.RVal (def_env fv e st), def_state fv (param_ids params) body e st).
+Proof.
+  cbn [SyltSem.exec SyltSem.eval]. unfold SyltSem.bind, SyltSem.new_cell, SyltSem.new_clos, SyltSem.write_cell, SyltSem.ret.
+  cbn [SyltSem.cells SyltSem.clos SyltSem.blobs SyltSem.trace]. rewrite set_nth_last. reflexivity.
+Qed.
 
 Definition print_state : SyltSem.state := SyltSem.mkState [SyltSem.SExt "print"] [] [] [].
 
@@ -67,18 +78,17 @@ Proof.
   destruct (SyltSem.run_outer (S (S f')) [(pv, 0%nat)] gs print_state) as [[eg|o|c] stg]; [|reflexivity|reflexivity].
   assert (Hdef : SyltSem.run_outer (S (S f')) eg [SDefinition nm sv kd' t' (EFunction fname [] ret body pure fsp) dsp] stg
                  = (SyltSem.RVal (start_env sv eg stg), start_state sv body eg stg)).
-  { cbn [SyltSem.run_outer SyltSem.exec SyltSem.eval map]. unfold SyltSem.bind, SyltSem.new_cell, SyltSem.new_clos, SyltSem.write_cell, SyltSem.ret.
-    cbn [SyltSem.cells SyltSem.clos SyltSem.blobs SyltSem.trace]. rewrite set_nth_last. reflexivity. }
-  rewrite Hdef. unfold start_env at 1. cbn [SyltSem.lookup]. rewrite N.eqb_refl.
-  unfold SyltSem.bind at 1. unfold SyltSem.read_cell. unfold start_state at 1. cbn [SyltSem.cells]. rewrite nth_error_last.
-  cbn [SyltSem.apply]. unfold SyltSem.bind at 1. unfold SyltSem.get_clos. unfold start_state at 1. cbn [SyltSem.clos]. rewrite nth_error_last.
+  { cbn [SyltSem.run_outer]. unfold SyltSem.bind at 1. rewrite exec_def_fun. reflexivity. }
+  rewrite Hdef. unfold start_env, def_env at 1. cbn [SyltSem.lookup]. rewrite N.eqb_refl.
+  unfold SyltSem.bind at 1. unfold SyltSem.read_cell. unfold start_state, def_state at 1. cbn [SyltSem.cells]. rewrite nth_error_last.
+  cbn [SyltSem.apply]. unfold SyltSem.bind at 1. unfold SyltSem.get_clos. unfold start_state, def_state at 1. cbn [SyltSem.clos]. rewrite nth_error_last.
   cbn [SyltSem.cl_params length Nat.eqb SyltSem.mapM]. unfold SyltSem.bind at 1. cbn [SyltSem.ret combine app SyltSem.cl_env SyltSem.cl_body].
-  fold (start_state sv body eg stg).
+  fold (def_state sv [] body eg stg). fold (start_state sv body eg stg). fold (def_env sv eg stg). fold (start_env sv eg stg).
   destruct (SyltSem.block_value (S f') (start_env sv eg stg) body (start_state sv body eg stg)) as [[v|o|[| |v]] st]; reflexivity.
 Qed.
 
 (* with fuel 1 nothing gets past the first definition *)
-Lemma run_outer_fuel1 : forall gs e st r st', forallb is_plain_def gs = true ->
+Lemma run_outer_fuel1 : forall gs e st r st', forallb is_def gs = true ->
   SyltSem.run_outer 1 e gs st = (r, st') ->
   match r with SyltSem.RVal _ => True | SyltSem.RStop o => o = SyltSem.OFuel | SyltSem.RAbrupt _ => False end.
 Proof.
@@ -90,7 +100,7 @@ Qed.
 
 Lemma run_fuel1 r pv sv kd t sp gs nm kd' t' fname ret body pure fsp dsp :
   r_stmts r = SExternalDefinition "print" pv kd t sp :: gs ++ [SDefinition nm sv kd' t' (EFunction fname [] ret body pure fsp) dsp] ->
-  IR.find_start (Resolved.r_vars r) = Some sv -> forallb is_plain_def gs = true ->
+  IR.find_start (Resolved.r_vars r) = Some sv -> forallb is_def gs = true ->
   SyltSem.r_final (SyltSem.run 1 r) = SyltSem.OFuel.
 Proof.
   intros Hstmts Hstart Hp. unfold SyltSem.run. rewrite Hstmts.
